@@ -6,9 +6,20 @@ Import ListNotations.
 Local Open Scope string_scope.
 
 (* ------------------------------------------------------------------ generated data *)
+(* guard conditions keep the STRUCTURE of the clang AST (names only; ASMJIT_LIKELY/UNLIKELY and double negation normalised away) *)
+Inductive cexpr :=
+| CName (s : string) | CThis | CLit (s : string) | CMem (b : cexpr) (s : string) | CNot (c : cexpr) | CUn (op : string) (c : cexpr)
+| CBin (op : string) (a b : cexpr) | CCall (f : string) (args : list cexpr) | COther (s : string).
+(* one nesting level of a write inside its function:
+   GCond c h : inside the branch of `if (c)` where c = h          GLoop k c : inside the body of a while / do-while loop on c
+   GExit c h : after an `if` whose other branch returned (not an error): reaching the write requires c = h
+   GErrExit  : after an `if (...) return <error>` (allocation failed, invalid argument ...): the object is not created / reset at all then
+   GOther k  : inside a for / switch / conditional operator / lambda *)
+Inductive gcomp := GCond (c : cexpr) (holds : bool) | GLoop (kind : string) (c : cexpr) | GExit (c : cexpr) (holds : bool) | GErrExit | GOther (s : string).
+
 (* w_obj  : the object the member is selected from: "this", "param:<name>", "var:<name>", "init-list" (aggregate initialiser), "expr"
-   w_guard: the conditions / loops the write is nested in inside its own function ("" = unconditional), printed by the translator *)
-Record write := mk_write { w_class : string; w_field : string; w_sub : string; w_how : string; w_obj : string; w_guard : string }.
+   w_guard: the nesting of the write inside its own function, outermost first ([] = unconditional) *)
+Record write := mk_write { w_class : string; w_field : string; w_sub : string; w_how : string; w_obj : string; w_guard : list gcomp }.
 Record func_decl := mk_func { f_name : string; f_writes : list write; f_calls : list string }.
 Record class_decl := mk_class { c_name : string; c_bases : list string; c_fields : list string }.
 
@@ -18,7 +29,7 @@ Record root := mk_root { rt_fn : string; rt_follow : follow }.
 (* a route: the routines that run when the objects of [r_classes] are reset/re-initialised/recycled along one path *)
 (* r_objs  : names under which the routines of the route refer to THE object being reset (writes to other objects do not count)
    r_guards: reviewed conditions under which a write still counts as always happening on this route *)
-Record route := mk_route { r_name : string; r_classes : list string; r_roots : list root; r_objs : list string; r_guards : list string }.
+Record route := mk_route { r_name : string; r_classes : list string; r_roots : list root; r_objs : list string; r_guards : list gcomp }.
 
 Definition mem (s : string) (l : list string) : bool := existsb (String.eqb s) l.
 
@@ -82,13 +93,64 @@ Definition specials : list special :=
 Definition write_is (c f sub how : string) (w : write) : bool :=
   String.eqb (w_class w) c && String.eqb (w_field w) f && String.eqb (w_sub w) sub && String.eqb (w_how w) how.
 
-(* the write is applied to the object being reset, under a condition that is accepted for the route *)
-Definition applies (r : route) (w : write) : bool :=
-  mem (w_obj w) (r_objs r) && (String.eqb (w_guard w) "" || mem (w_guard w) (r_guards r)).
-(* ... or applied to it in BOTH branches of one condition (two writes with guards g and !g) *)
+Fixpoint cexpr_eqb (x y : cexpr) {struct x} : bool :=
+  match x, y with
+  | CName a, CName b => String.eqb a b
+  | CThis, CThis => true
+  | CLit a, CLit b => String.eqb a b
+  | CMem x1 a, CMem y1 b => cexpr_eqb x1 y1 && String.eqb a b
+  | CNot x1, CNot y1 => cexpr_eqb x1 y1
+  | CUn o1 x1, CUn o2 y1 => String.eqb o1 o2 && cexpr_eqb x1 y1
+  | CBin o1 x1 x2, CBin o2 y1 y2 => String.eqb o1 o2 && cexpr_eqb x1 y1 && cexpr_eqb x2 y2
+  | CCall f xs, CCall g ys =>
+      String.eqb f g &&
+      (fix all2 (l1 l2 : list cexpr) {struct l1} : bool :=
+         match l1, l2 with
+         | [], [] => true
+         | a :: r1, b :: r2 => cexpr_eqb a b && all2 r1 r2
+         | _, _ => false
+         end) xs ys
+  | COther a, COther b => String.eqb a b
+  | _, _ => false
+  end.
+
+Definition gcomp_eqb (x y : gcomp) : bool :=
+  match x, y with
+  | GCond a h1, GCond b h2 => cexpr_eqb a b && Bool.eqb h1 h2
+  | GLoop k1 a, GLoop k2 b => String.eqb k1 k2 && cexpr_eqb a b
+  | GExit a h1, GExit b h2 => cexpr_eqb a b && Bool.eqb h1 h2
+  | GErrExit, GErrExit => true
+  | GOther a, GOther b => String.eqb a b
+  | _, _ => false
+  end.
+
+Fixpoint guard_eqb (g1 g2 : list gcomp) : bool :=
+  match g1, g2 with
+  | [], [] => true
+  | a :: r1, b :: r2 => gcomp_eqb a b && guard_eqb r1 r2
+  | _, _ => false
+  end.
+
+(* every nesting level is an error exit (the object does not come into being then) or a reviewed guard of the route *)
+Definition guard_ok (r : route) (g : list gcomp) : bool :=
+  forallb (fun c => match c with GErrExit => true | _ => existsb (gcomp_eqb c) (r_guards r) end) g.
+
+(* the write is applied to the object being reset, under conditions that are accepted for the route *)
+Definition applies (r : route) (w : write) : bool := mem (w_obj w) (r_objs r) && guard_ok r (w_guard w).
+
+(* ... or applied to it in BOTH branches of one condition: guards pre ++ [GCond c true] and pre ++ [GCond c false], pre accepted *)
+Definition negate_last (g : list gcomp) : option (list gcomp * list gcomp) :=
+  match rev g with
+  | GCond c h :: pre_rev => Some (rev pre_rev, rev (GCond c (negb h) :: pre_rev))
+  | _ => None
+  end.
 Definition applies_both (r : route) (ws : list write) (sel : write -> bool) : bool :=
   existsb (fun w1 => sel w1 && mem (w_obj w1) (r_objs r) &&
-     existsb (fun w2 => sel w2 && mem (w_obj w2) (r_objs r) && String.eqb (w_guard w2) ("!" ++ w_guard w1)) ws) ws.
+     match negate_last (w_guard w1) with
+     | Some (pre, other) => guard_ok r pre &&
+         existsb (fun w2 => sel w2 && mem (w_obj w2) (r_objs r) && guard_eqb (w_guard w2) other) ws
+     | None => false
+     end) ws.
 
 Definition plain_sel (c f : string) (w : write) : bool :=
   String.eqb (w_class w) c && String.eqb (w_field w) f && String.eqb (w_sub w) "" && mem (w_how w) reset_hows.
@@ -113,17 +175,21 @@ Definition section_classes := ["Section"; "SectionOrLabelEntryExtraHeader"].
 
 (* object names *)
 Definition self_objs := ["this"; "param:self"].
-(* reviewed guards (the reason is given where the guard is used) *)
-Definition g_loop_emitters := "while emitter".            (* CodeHolder_detach_emitters: body runs for every attached emitter; its last
-                                                             iteration stores the null successor into _attached_first *)
-Definition g_own_logger := "!has_own_logger()".           (* the emitter's OWN logger is user configuration (kOwnLogger) and persists *)
-Definition g_own_handler := "!has_own_error_handler()".   (* same for the own error handler *)
-Definition g_hard := "(reset_policy == kHard)".
+(* reviewed guards *)
+(* CodeHolder_detach_emitters: the body runs for every attached emitter; its last iteration stores the null successor into _attached_first *)
+Definition g_loop_emitters := GLoop "while" (CName "emitter").
+(* the emitter's OWN logger / error handler is user configuration (kOwnLogger / kOwnErrorHandler) and persists *)
+Definition g_own_logger := GCond (CNot (CCall "has_own_logger" [CThis])) true.
+Definition g_own_handler := GCond (CNot (CCall "has_own_error_handler" [CThis])) true.
+Definition g_hard := GCond (CBin "==" (CName "reset_policy") (CName "kHard")) true.
 (* hard reset, blocks were allocated, no static block: the first block becomes the shared zero block. In the other two cases the
    first block already is the zero block (nothing allocated) or is the user's static block: it stays by design *)
-Definition g_hard_dynamic := "(reset_policy == kHard) && !(first == &_arena_zero_block) && !has_static_block()".
-Definition g_label_ok := "!__builtin_expect(!!(err != kOk),0)".                  (* new_label_id: the entry is only created when reserving succeeded *)
-Definition g_anonymous := "(name_size == 0)".                                    (* new_named_label_id: the anonymous-label early exit *)
+Definition g_not_zero_block := GCond (CBin "==" (CName "first") (CUn "&" (CName "_arena_zero_block"))) false.
+Definition g_no_static_block := GCond (CCall "has_static_block" [CThis]) false.
+(* new_label_id: the entry is only created when reserving the vector slot succeeded *)
+Definition g_label_ok := GCond (CBin "!=" (CName "err") (CName "kOk")) false.
+(* new_named_label_id: an empty name takes the anonymous-label early exit; the named path continues *)
+Definition g_named := GExit (CBin "==" (CName "name_size") (CLit "0")) false.
 
 (* constructor routes of the Builder/Compiler nodes: placement-new into never-zeroed builder arena memory *)
 Definition node_classes : list string :=
@@ -136,15 +202,27 @@ Definition routes : list route :=
     mk_route "holder.reinit" ["CodeHolder"] [mk_root "CodeHolder::reinit" FollowAll] self_objs [];
     mk_route "holder.text_section" section_classes [mk_root "CodeHolder_add_text_section" FollowAll] ["param:section"; "this"] [];
     mk_route "holder.new_section" section_classes [mk_root "CodeHolder::new_section" FollowAll] ["var:section"; "param:section"; "this"] [];
-    mk_route "arena.reset_hard" ["Arena"] [mk_root "Arena::reset" FollowAll] ["this"; "param:arena"] [g_hard; g_hard_dynamic];
+    mk_route "arena.reset_hard" ["Arena"] [mk_root "Arena::reset" FollowAll] ["this"; "param:arena"] [g_hard; g_not_zero_block; g_no_static_block];
     mk_route "arena.reset_soft" ["Arena"] [mk_root "Arena::reset" FollowAll] ["this"; "param:arena"] [];
+    (* hard reset of an arena whose first block is the user's static buffer: the block stays, its link to the (just freed) heap
+       blocks must be cut *)
+    mk_route "arena.static_block" ["Arena::ManagedBlock"] [mk_root "Arena::reset" FollowNone] ["var:first"]
+             [g_hard; g_not_zero_block; GCond (CCall "has_static_block" [CThis]) true];
     (* objects created in (possibly recycled, never zeroed) arena memory: every member must be initialised at creation *)
     mk_route "holder.new_reloc" ["RelocEntry"] [mk_root "CodeHolder::new_reloc_entry" FollowNone] ["var:re"] [];
     mk_route "holder.new_fixup" ["Fixup"] [mk_root "CodeHolder::new_fixup" FollowNone] ["var:link"] [];
     mk_route "holder.new_address" ["AddressTableEntry"] [mk_root "AddressTableEntry::AddressTableEntry" FollowNone] ["this"] [];
     mk_route "holder.new_label" ["LabelEntry"] [mk_root "CodeHolder::new_label_id" FollowNone] ["init-list"] [g_label_ok];
     mk_route "holder.new_named_label" ["LabelEntry"; "CodeHolder::NamedLabelExtraData"] [mk_root "CodeHolder::new_named_label_id" FollowNone]
-             ["init-list"; "var:named_node"] [] ]
+             ["init-list"; "var:named_node"] [g_named];
+    (* per-use objects of the Compiler and the register allocator, created in arenas that are recycled as a whole *)
+    mk_route "obj/VirtReg" ["VirtReg"] [mk_root "VirtReg::VirtReg" FollowNone] ["this"] [];
+    mk_route "obj/JumpAnnotation" ["JumpAnnotation"] [mk_root "JumpAnnotation::JumpAnnotation" FollowNone] ["this"] [];
+    mk_route "obj/RAWorkReg" ["RAWorkReg"] [mk_root "RAWorkReg::RAWorkReg" FollowNone] ["this"] [];
+    mk_route "obj/RABlock" ["RABlock"] [mk_root "RABlock::RABlock" FollowNone] ["this"] [];
+    mk_route "obj/RAInst" ["RAInst"] [mk_root "RAInst::RAInst" FollowNone] ["this"] [];
+    mk_route "obj/RAStackSlot" ["RAStackSlot"] [mk_root "RAStackAllocator::new_slot" FollowNone] ["var:slot"] [];
+    mk_route "obj/Pass" ["Pass"] [mk_root "Pass::Pass" FollowNone] ["this"] [] ]
   ++ map (fun c => mk_route ("node/" ++ c) [c] [mk_root (ctor_of c) FollowNone] ["this"] []) node_classes
   ++ map (fun e => mk_route ("detach/" ++ fst e) (snd e)
                      [mk_root (fst e ++ "::on_detach") FollowAll; mk_root "CodeHolder::detach" FollowNone]
@@ -184,6 +262,14 @@ Definition must_call : list (string * string) :=
     ("a64::Builder::on_detach", "BaseBuilder::on_detach");
     ("x86::Compiler::on_detach", "BaseCompiler::on_detach");
     ("a64::Compiler::on_detach", "BaseCompiler::on_detach");
+    (* operand arrays behind InstNode (trailing storage / InstNodeWithOperands<N>::_operands): the used operands are set, the
+       rest of the capacity is reset *)
+    ("BaseBuilder::_emit", "InstNode::set_op");
+    ("BaseBuilder::_emit", "InstNode::reset_op_range");
+    ("BaseCompiler::new_jump_node", "InstNode::set_op");
+    ("BaseCompiler::new_jump_node", "InstNode::reset_op_range");
+    ("BaseCompiler::new_func_ret_node", "InstNode::reset_op_range");
+    ("InvokeNode::InvokeNode", "InstNode::_reset_ops");
     ("x86::Compiler::on_reinit", "BaseCompiler::on_reinit");
     ("a64::Compiler::on_reinit", "BaseCompiler::on_reinit") ].
 
@@ -212,6 +298,7 @@ Definition persistent : list persist :=
     mk_persist "arena.reset_hard" "Arena" "_min_block_size_shift" cfg_why;
     mk_persist "arena.reset_hard" "Arena" "_max_block_size_shift" cfg_why;
     mk_persist "arena.reset_hard" "Arena" "_has_static_block" cfg_why;
+    mk_persist "arena.static_block" "Arena::ManagedBlock" "size" "size of the user's static buffer, set once by Arena::_init";
     mk_persist "arena.reset_soft" "Arena" "_min_block_size_shift" cfg_why;
     mk_persist "arena.reset_soft" "Arena" "_max_block_size_shift" cfg_why;
     mk_persist "arena.reset_soft" "Arena" "_has_static_block" cfg_why;
@@ -225,7 +312,7 @@ Definition persistent : list persist :=
     mk_persist "detach" "BaseEmitter" "_arch_mask" cfg_why;
     mk_persist "detach" "BaseEmitter" "_funcs" "backend function table: reassigned by every arch on_attach (update_emitter_funcs) before any use";
     mk_persist "detach" "BaseBuilder" "_dirty_section_links"
-      "conservative cache-dirty flag: a stale 'true' only forces update_section_links to recompute the links from the (fresh) node list; it is cleared there";
+      "conservative cache-dirty flag: a stale 'true' only forces update_section_links to recompute the links from the (fresh) node list; it is cleared there. PROVED on the Builder model: Properties_C16.C16_recycled_builder_equals_fresh";
     mk_persist "detach_all" "BaseEmitter" "_emitter_type" cfg_why;
     mk_persist "detach_all" "BaseEmitter" "_validation_flags" cfg_why;
     mk_persist "detach_all" "BaseEmitter" "_diagnostic_options" cfg_why;
